@@ -1086,6 +1086,8 @@ func (sq *Queue) RemoveApplication(app *Application) {
 	sq.Unlock()
 	app.appEvents.SendRemoveApplicationEvent(appID)
 
+	// the application is tracked as allocating in all parents too
+	sq.parent.clearAllocatingAccepted(appID)
 	sq.parent.UpdateQueuePriority(sq.Name, priority)
 
 	log.Log(log.SchedQueue).Info("Application completed and removed from queue",
@@ -2077,6 +2079,20 @@ func (sq *Queue) setAllocatingAccepted(appID string) {
 	sq.Lock()
 	defer sq.Unlock()
 	sq.allocatingAcceptedApps[appID] = true
+}
+
+// clearAllocatingAccepted removes the application from the tracked allocating accepted applications.
+// For this queue (recursively).
+func (sq *Queue) clearAllocatingAccepted(appID string) {
+	if sq == nil {
+		return
+	}
+	if sq.parent != nil {
+		sq.parent.clearAllocatingAccepted(appID)
+	}
+	sq.Lock()
+	defer sq.Unlock()
+	delete(sq.allocatingAcceptedApps, appID)
 }
 
 func (sq *Queue) GetPreemptionPolicy() policies.PreemptionPolicy {
